@@ -47,13 +47,13 @@ def ends(res):
     return sorted({int(m.split(":", 1)[0]) for m in res[3:].split(";")})
 
 
-def child(job, hashseed="0"):
+def child(job, hashseed="0", env_extra=None):
     with tempfile.NamedTemporaryFile("w", suffix=".json", delete=False) as f:
         json.dump(job, f)
         path = f.name
     try:
         p = subprocess.run([C.PY, os.path.abspath(__file__), "--child", path], capture_output=True, text=True,
-                           env=C.env_for_impl(hashseed), check=False)
+                           env=dict(C.env_for_impl(hashseed), **(env_extra or {})), check=False)
     finally:
         os.unlink(path)
     if p.returncode != 0:
@@ -354,6 +354,24 @@ def orders(a):
                 for df in reg_x.diff(base, strip(d["dump"], pref))[:2]:
                     viol.append({"what": f"{pref} rule {df['rule']} {df['what']} after importing {ms}", "identity": f"c14:{pref}{df['rule']}",
                                  "replay_payload": {"property": "C14", "import_order": ms, "difference": df}})
+    # the same question under "python -O" (asserts and `if __debug__` compiled away): every module alone vs all modules, both orders
+    opt = {"PYTHONOPTIMIZE": "1"}
+    with ThreadPoolExecutor(max_workers=12) as ex:
+        res_o = list(ex.map(lambda ms: (ms, child({"import": ms, "dump": True}, env_extra=opt)), [[m] for m in mods] + [mods, list(reversed(mods))]))
+    alone_o = {ms[0]: d["dump"] for ms, d in res_o[:len(mods)] if "__error__" not in d}
+    for ms, d in res_o:
+        if "__error__" in d:
+            viol.append({"what": f"under python -O the import of {ms} failed: " + d["__error__"][-200:], "identity": "import-error-O", "replay_payload": d})
+    for ms, d in res_o[len(mods):]:
+        if "__error__" in d:
+            continue
+        for m in ms:
+            if m in alone_o:
+                for df in reg_x.diff(strip(alone_o[m], m + "."), strip(d["dump"], m + "."))[:2]:
+                    viol.append({"what": f"under python -O: module {m}: rule {df['rule']} {df['what']} when imported as part of all modules instead of alone",
+                                 "identity": f"c14-O:{m}:{df['rule']}:{df['what']}",
+                                 "replay_payload": {"property": "C14", "interpreter": "python -O", "module": m, "import_order": ms, "difference": df}})
+                compared += 1
     # and the model: alone == loader model's r_only
     mm = 0
     for m in mods[: (6 if a.tier == "quick" else len(mods))]:
@@ -406,7 +424,7 @@ def c15(a):
     # the same comparison in a process whose application had defined rules on the base class, named like rules that the ABNF
     # grammars reference before defining them (element, option, comment, ...), BEFORE the grammar modules were imported
     prelude = ['element = "zz"', 'option = "oo"', 'comment = "#c"', 'c-nl = "nl"', 'group = "gg"', 'repeat = "rr"', 'char-val = "cv"',
-               'zz9 = %x41.110000', 'zz8 = %d65.66.1114112', 'zz7 = %x41-110000', 'zz6 = "unterminated']
+               'zz9 = %x41.110000', 'zz8 = %d65.66.1114112', 'zz7 = %x41-110000', 'zz6 = "unterminated', 'zz5 = 5digit *wsp alpha hexdig [ crlf ]']
     sub = [s_ for s_ in strings if len(s_) <= 30][:: max(1, len(strings) // 150)]
     probes2 = []
     for s in sub:
